@@ -93,6 +93,7 @@ def case_strategy(draw):
         "bin_index": draw(index_expr(nb)),
         "patch_index": draw(index_expr(npatch)),
         "perturb": draw(st.integers(0, 10_000)),
+        "via": draw(st.sampled_from(gen.PROVENANCE)),  # how operand a reached the caller
     }
 
 
@@ -307,6 +308,14 @@ def run_case(case) -> list[Result]:
     if not (ok and ok2):
         return ck.results()
     ea, eb = _expected_arrays(kind, a_case), _expected_arrays(kind, b_case)
+    how = case.get("via")
+    if how == "hdf5" and kind == "CorrData":
+        how = "pickle"  # sampled data have no binary file format (their text files are rounded, see C11)
+    if how:
+        ok, a = ck.call(gen.via, f"via:{how}:{kind}", a, how)
+        if not ok:
+            return ck.results()
+        ck.cls(f"via:{how}")
     ck.expect(_same(_arrays(kind, a), ea), f"construct:{kind}:values")
 
     # ---------------- equality: reflexive and structural
